@@ -163,6 +163,7 @@ func ruleScanADM(r *Run, rule string, k *vecKind, spec admSpec) {
 		aDEL
 		aSKIP
 		aCMP
+		aEMPTY // the soft-delete bitmap is empty (⇒ no element is soft-deleted)
 	)
 	type atom struct {
 		kind atomKind
@@ -187,6 +188,12 @@ func ruleScanADM(r *Run, rule string, k *vecKind, spec admSpec) {
 		case *ssa.Call:
 			cc := x.Common()
 			switch calleeName(cc) {
+			case roaringBitmap + "IsEmpty":
+				// evaluated while the index lock is held (or by a routine whose caller holds it): the answer stays true
+				// for the whole scan
+				if S(cc.Args[0]) == delCanon && emptyUnderLock(w, fn, x) {
+					return atom{kind: aEMPTY, neg: neg}
+				}
 			case roaringBitmap + "Contains":
 				recv, arg := S(cc.Args[0]), S(cc.Args[1])
 				if recv == delCanon {
@@ -363,32 +370,48 @@ func ruleScanADM(r *Run, rule string, k *vecKind, spec admSpec) {
 				if spec.THR {
 					want = want && (rank["thr"] <= rank["0"] || rank["dist"] <= rank["thr"])
 				}
-				// consistent paths
+				// consistent paths (the bitmap may be empty only when the element is not soft-deleted)
 				outcomes := map[bool]int{}
 				for _, pi := range infos {
-					ok := true
-					for i, a := range pi.atoms {
-						var val bool
-						switch a.kind {
-						case aDEL:
-							val = del == 1
-						case aSKIP:
-							val = skip == 1
-						case aCMP:
-							val = evalCmp(a.cmp, relOf(rank[a.cmp.L], rank[a.cmp.R]))
-						default:
+					for empty := 0; empty < 2; empty++ {
+						if empty == 1 && del == 1 {
 							continue
 						}
-						if a.neg {
-							val = !val
+						usesEmpty := false
+						for _, a := range pi.atoms {
+							if a.kind == aEMPTY {
+								usesEmpty = true
+							}
 						}
-						if val != pi.takens[i] {
-							ok = false
-							break
+						if !usesEmpty && empty == 1 {
+							continue
 						}
-					}
-					if ok {
-						outcomes[pi.admitted]++
+						ok := true
+						for i, a := range pi.atoms {
+							var val bool
+							switch a.kind {
+							case aEMPTY:
+								val = empty == 1
+							case aDEL:
+								val = del == 1
+							case aSKIP:
+								val = skip == 1
+							case aCMP:
+								val = evalCmp(a.cmp, relOf(rank[a.cmp.L], rank[a.cmp.R]))
+							default:
+								continue
+							}
+							if a.neg {
+								val = !val
+							}
+							if val != pi.takens[i] {
+								ok = false
+								break
+							}
+						}
+						if ok {
+							outcomes[pi.admitted]++
+						}
 					}
 				}
 				state := fmt.Sprintf("DEL=%d SKIP=%d order(0,thr,dist)=%v", del, skip, ord)
@@ -430,6 +453,43 @@ func ruleScanADM(r *Run, rule string, k *vecKind, spec admSpec) {
 		return
 	}
 	r.Ok(rule, k.Name+":table", site, detail+": admitted ⇔ ¬DEL ∧ ¬SKIP ∧ (thr ≤ 0 ∨ dist ≤ thr) in every state")
+}
+
+// emptyUnderLock: the IsEmpty call happens after fn took a lock (and before releasing it), or fn takes no lock at all (its
+// callers hold it).
+func emptyUnderLock(w *World, fn *ssa.Function, call *ssa.Call) bool {
+	if call.Parent() != fn {
+		return false
+	}
+	var locks, unlocks []ssa.Instruction
+	allInstrs(fn, func(in ssa.Instruction) {
+		if c, ok := in.(*ssa.Call); ok {
+			switch calleeName(c.Common()) {
+			case "(*sync.RWMutex).RLock", "(*sync.RWMutex).Lock", "(*sync.Mutex).Lock":
+				locks = append(locks, in)
+			case "(*sync.RWMutex).RUnlock", "(*sync.RWMutex).Unlock", "(*sync.Mutex).Unlock":
+				unlocks = append(unlocks, in)
+			}
+		}
+	})
+	if len(locks) == 0 {
+		return true
+	}
+	for _, l := range locks {
+		if !domInstr(l, call) {
+			continue
+		}
+		held := true
+		for _, u := range unlocks {
+			if domInstr(l, u) && domInstr(u, call) {
+				held = false
+			}
+		}
+		if held {
+			return true
+		}
+	}
+	return false
 }
 
 // predPath is one path through a pure boolean helper: the branch conditions met (with the rendering function that
